@@ -190,6 +190,9 @@ type Exec struct {
 	clockLast  *Int
 	ufDecl     map[string]bool
 	ntpdef     int
+	expvarAnon map[*value]*expvarObj
+	fs         fsModel
+	compileCalls int
 	cachedModel []InputRec
 	matchTable map[*value]value
 	natives    map[string]value
@@ -713,6 +716,9 @@ func (e *Exec) runPath(prefix []int64) {
 	e.inInit = 0
 	e.ufDecl = map[string]bool{}
 	e.ntpdef = 0
+	e.expvarAnon = nil
+	e.fs = fsModel{}
+	e.compileCalls = 0
 	e.matchTable = map[*value]value{}
 	e.natives = map[string]value{}
 	e.faultSeq = 0
